@@ -36,7 +36,7 @@ BODY = ('[<dtml-var sequence-item>|<dtml-if sequence-start>S</dtml-if>|'
         '<dtml-var previous-sequence-size></dtml-if>|'
         '<dtml-if next-sequence>N<dtml-var next-sequence-start-number>;'
         '<dtml-var next-sequence-end-number>;<dtml-var next-sequence-size>'
-        '</dtml-if>|<dtml-var sequence-step-size>]')
+        '</dtml-if>|<dtml-var sequence-step-size>]<dtml-var hook missing="">')
 ROW = re.compile(r'\[(-?\d+)\|(S?)\|(E?)\|(?:P(-?\d+);(-?\d+);(-?\d+))?\|'
                  r'(?:N(-?\d+);(-?\d+);(-?\d+))?\|(-?\d+)\]')
 
@@ -258,7 +258,25 @@ def nontrivial(case):
     return False
 
 
-def walk(L, size, orphan, overlap, variant='var'):
+class SeqLike:
+    """A sequence class of the application's own (indexable also from the
+    end, like a tuple)."""
+
+    def __init__(self, items):
+        self._items = tuple(items)
+
+    def __getitem__(self, i):
+        return self._items[i]
+
+    def __len__(self):
+        return len(self._items)
+
+    def __eq__(self, other):
+        return isinstance(other, SeqLike) and self._items == other._items
+
+
+def walk(L, size, orphan, overlap, variant='var', container='list',
+         reenter=False):
     """Follow next-sequence-start-number from 1, then previous-... back.
     variant: the sequence is handed over reversed / shuffled and the tag
     reverses / sorts it; the same list object is used for every step."""
@@ -268,8 +286,30 @@ def walk(L, size, orphan, overlap, variant='var'):
              'var-sort-reverse': seq[0::2] + seq[1::2][::-1]}[variant]
     if variant == 'var-sort-reverse':
         seq = seq[::-1]
+    if container != 'list':
+        given = {'tuple': tuple, 'seqlike': SeqLike}[container](given)
+    given_copy = {'list': list, 'tuple': tuple,
+                  'seqlike': SeqLike}[container](given)
     expected_seq, seq = seq, given
     t = template(variant)
+    hook = ''
+    if reenter:
+        # while an element renders, the same compiled template is rendered
+        # once more with other batch parameters (a template that calls
+        # itself for the sub-folders of an entry)
+        busy = []
+
+        def hook():
+            if not busy:
+                busy.append(1)
+                try:
+                    t(s=list(range(40)), st=2, en=0, sz=size + 3,
+                      orp=orphan + 1, ov=0, hook='')
+                except Exception:
+                    pass
+                finally:
+                    busy.pop()
+            return ''
     start, windows, steps = 1, [], 0
     if L == 0:
         return None
@@ -279,7 +319,8 @@ def walk(L, size, orphan, overlap, variant='var'):
             return 'walk-no-termination', 'L=%d size=%d orphan=%d overlap=%d' \
                 % (L, size, orphan, overlap)
         try:
-            out = t(s=seq, st=start, en=0, sz=size, orp=orphan, ov=overlap)
+            out = t(s=seq, st=start, en=0, sz=size, orp=orphan, ov=overlap,
+                    hook=hook)
         except Exception as e:
             return 'walk-exception:%s' % type(e).__name__, repr(e)
         rows = ROW.findall(out)
@@ -300,7 +341,7 @@ def walk(L, size, orphan, overlap, variant='var'):
         return 'walk-cover' + ('' if variant == 'var' else ':' + variant), \
             msg
     if variant != 'var':
-        if given != {'var-reverse': expected_seq[::-1]}.get(variant, given):
+        if given != given_copy:
             return 'walk-input-modified', msg
         return None
     for a, b in zip(windows, windows[1:]):
@@ -312,7 +353,8 @@ def walk(L, size, orphan, overlap, variant='var'):
         steps += 1
         if steps > L + 1:
             return 'walkback-no-termination', msg
-        out = t(s=seq, st=cur, en=0, sz=size, orp=orphan, ov=overlap)
+        out = t(s=seq, st=cur, en=0, sz=size, orp=orphan, ov=overlap,
+                hook=hook)
         rows = ROW.findall(out)
         if not rows or not rows[0][3]:
             return 'walkback-missing-previous', msg + ' at start %d' % cur
@@ -336,7 +378,10 @@ def plan(tier, seed):
     for L in lengths:
         for st in (R_START[0::2], R_START[1::2]):
             shards.append(dict(kind='enum', L=L, starts=st))
-    shards.append(dict(kind='walks', lengths=list(range(15))))
+    shards[0:0] = [dict(kind='walks', lengths=[14, 0, 1, 2, 3]),
+                   dict(kind='walks', lengths=[13, 4, 5, 6]),
+                   dict(kind='walks', lengths=[12, 7, 8]),
+                   dict(kind='walks', lengths=[11, 9, 10])]
     n = 16 if tier == 'thorough' else 4
     for i in range(n):
         shards.append(dict(kind='random', seed=seed * 1000 + i,
@@ -395,6 +440,23 @@ def run_shard(shard):
                                      distinct_by_construction=True)
                             if bad:
                                 acc.fail(bad[0], case, bad[1])
+                            if variant in ('var-sort', 'var-sort-reverse'):
+                                continue
+                            # other containers; a re-entered template
+                            for cont, re_ in (('tuple', False),
+                                              ('seqlike', False),
+                                              ('list', True)):
+                                case = ['walk', L, size, orphan, overlap,
+                                        variant, cont, re_]
+                                bad = walk(*case[1:])
+                                acc.case(case, L > size, klass='walk:%s:%s%s'
+                                         % (variant, cont, ':reentered'
+                                            if re_ else ''),
+                                         distinct_by_construction=True)
+                                if bad:
+                                    acc.fail(bad[0] + ':' + cont + (
+                                        ':reentered' if re_ else ''), case,
+                                        bad[1])
     else:
         def one(case):
             case = list(case)
